@@ -346,9 +346,22 @@ func (s *scriptReader) Read(p []byte) (int, error) {
 	return n, nil
 }
 
-type sinkWriter struct{ got []byte }
+// sinkWriter collects what WriteTo delivers; it refuses to grow far beyond what
+// was ever written by the peer, so a runaway copy loop ends deterministically.
+type sinkWriter struct {
+	got   []byte
+	limit int
+}
 
-func (s *sinkWriter) Write(p []byte) (int, error) { s.got = append(s.got, p...); return len(p), nil }
+var errTooMuch = errors.New("c01: far more bytes delivered than were ever written")
+
+func (s *sinkWriter) Write(p []byte) (int, error) {
+	if len(s.got)+len(p) > s.limit {
+		return 0, errTooMuch
+	}
+	s.got = append(s.got, p...)
+	return len(p), nil
+}
 
 // sendAll pushes data through c according to the direction's writer mode.
 // It returns false after recording a failure.
@@ -416,7 +429,8 @@ func (r *runner) writes(c netio.Conn, dir string, data []byte, sizes []int) bool
 }
 
 // recvAll reads c to the end of the stream according to the reader mode.
-func (r *runner) recvAll(c netio.Conn, d *Dir, dir string) (got []byte, ok bool) {
+func (r *runner) recvAll(c netio.Conn, d *Dir, dir string, wantLen int) (got []byte, ok bool) {
+	limit := wantLen + 1<<17
 	mode := d.RM
 	bufs := d.Bufs
 	if len(bufs) == 0 {
@@ -441,6 +455,10 @@ func (r *runner) recvAll(c netio.Conn, d *Dir, dir string) (got []byte, ok bool)
 				return got, false
 			}
 			got = append(got, buf[:n]...)
+			if len(got) > limit {
+				r.fail("stream-extra-bytes", dir, "%d bytes delivered and still no end of stream; only %d were written", len(got), wantLen)
+				return got, false
+			}
 			if err == io.EOF {
 				return got, true
 			}
@@ -463,10 +481,14 @@ func (r *runner) recvAll(c netio.Conn, d *Dir, dir string) (got []byte, ok bool)
 		r.fail("no-writerto", dir, "%T has no WriteTo", c)
 		return got, false
 	}
-	sink := &sinkWriter{}
+	sink := &sinkWriter{limit: limit - len(got)}
 	r.ops.Add(1)
 	n, err := wt.WriteTo(sink)
 	got = append(got, sink.got...)
+	if errors.Is(err, errTooMuch) {
+		r.fail("stream-extra-bytes", dir, "WriteTo delivered more than %d bytes; only %d were written", len(got), wantLen)
+		return got, false
+	}
 	if err != nil {
 		r.fail(readErrClause(err), dir, "WriteTo after %d bytes: %v", len(got), err)
 		return got, false
@@ -559,7 +581,7 @@ func (r *runner) clientSide(t *tunnel, gotS2C *[]byte, doneS2C *bool) {
 		return
 	}
 	r.w.Go("client-reader", func() {
-		got, ok := r.recvAll(cc, &c.S2C, "s2c")
+		got, ok := r.recvAll(cc, &c.S2C, "s2c", len(r.want.s2c))
 		*gotS2C = got
 		*doneS2C = ok
 		if !ok {
@@ -650,7 +672,7 @@ func (r *runner) serverSide(t *tunnel, obs **reqObs, gotC2S *[]byte, doneC2S *bo
 		return
 	}
 	r.w.Go("server-reader", func() {
-		got, ok := r.recvAll(sc, &c.C2S, "c2s")
+		got, ok := r.recvAll(sc, &c.C2S, "c2s", len(r.want.c2s))
 		*gotC2S = got
 		*doneC2S = ok
 		if !ok {
